@@ -26,6 +26,18 @@ namespace BioCantor.Driver.Cache
 open BioCantor BioCantor.Proto BioCantor.Model.Cache
 open BioCantor.Spec.Cache (Ev Ans CdsOp)
 
+/-! The two switches below make the model mirror THE CODE THAT EXISTS in /repo.  Flip them (and only them) when the
+    corresponding defect is repaired there; the theorems in Props/C10.lean cover both settings
+    (`extract_history_independent_repaired`, `merge_deep_preserves_operand`). -/
+
+/-- cds.py:456-459 — does the cached-codon path of `extract_sequence` wrap its result in a `Sequence`?
+    `false` on the pinned tree (F-C10a). -/
+def pathBWrapsAsCoded : Bool := true
+
+/-- gene/interval.py:780 — does `_merge_qualifiers` copy the qualifier SETS (not only the dict)?
+    `false` on the pinned tree (F-C10b). -/
+def mergeCopiesSetsAsCoded : Bool := true
+
 def pureF (k : Int) : Int := 3 * k + 1
 def pureM (o k : Int) : Int := 100 * o + k
 
@@ -133,14 +145,13 @@ def ops : List (String × Op) := [
       match pCdsOps w with
       | .error e => throw e
       | .ok hist =>
-        -- the code as it is: path B does not wrap its result (cds.py:456-459)
-        let cfg : CdsCfg (List Char) := ⟨fun l => l, fun l => l, false⟩
+        let cfg : CdsCfg (List Char) := ⟨fun l => l, fun l => l, pathBWrapsAsCoded⟩
         let r := cdsRun cfg (CdsState.fresh letters.toList) hist
         pure ("ok " ++ " ".intercalate (r.2.map showAns))),
   ("merge", do
       let own ← pQDict; let other ← pQDict
       let h0 := alloc [] own
-      let r := mergeShallow h0.1 h0.2 other
+      let r := if mergeCopiesSetsAsCoded then mergeDeep h0.1 h0.2 other else mergeShallow h0.1 h0.2 other
       pure s!"ok {showQDict (deref r.1 r.2)} {showQDict (deref r.1 h0.2)}")
 ]
 end BioCantor.Driver.Cache
